@@ -260,6 +260,69 @@ def native_sections(repo, tier):
     return {"obligations": obls, "undecided": und}
 
 
+DOC_FORMATS = ("pdf", "pptx", "odp", "epub", "rtf", "xlsx", "ods", "eml", "mbox", "ppt", "txt", "html")
+
+
+def documents_oid(fmt):
+    return f"C03/replay::generated-documents[documents:{fmt}]/bounded#units-mirror-the-generated-document.BOUNDED"
+
+
+def native_documents(repo, tier):
+    """BOUNDED stand-in (DESIGN 2.8) for the part of the property that lives in code not under a symbolic contract (element text built
+    by the extractors: paragraphs / shapes of a slide, inline parts of a message, pages that cannot be read, ...): small documents of
+    every format are GENERATED natively (replay/C03.py), read with the real extractor and compared with the statement -- one unit per
+    page / slide / sheet / chapter / message at its source position, every generated text token exactly once and in the unit of its
+    element, full text == joined unit texts.  A mismatch outside the recorded exclusions is a violation with its document; no mismatch
+    is `bounded-ok` (never counted as discharged)."""
+    excl = recorded_exclusions()
+    res = _native({"property": "C03", "scope": "documents", "repo": repo, "exclude_features": excl}, repo)
+    obls, und = [], []
+    if "error" in res or "results" not in res:
+        return {"obligations": [], "undecided": [{"obligation": documents_oid(f), "why": "native scope could not run: " + str(res.get("error", res.get("note")))[:300]}
+                                                 for f in DOC_FORMATS]}
+    bounds = {"pdf": "1..3 pages, blank / one text token each, any subset of pages unreadable",
+              "pptx": "0..3 slides x {text, empty, hidden}; 1..2 slides x 1..3 shapes over {title, ctrTitle, body, subTitle, text box}; parts stored in reverse order",
+              "odp": "0..3 slides x {text, empty}; 1..2 slides x 1..3 paragraphs over {Title, TitleText, BodyText, other style, no style}",
+              "epub": "0..3 spine items x {text, empty, missing from the manifest}, linear=no items; 1..2 chapters x 2..3 blocks over {h1, p, li}",
+              "txt": "0..3 paragraphs", "html": "0..3 paragraphs (p / div)", "rtf": "1..3 pages over {text, empty, blank, Unicode runs, hex escapes}",
+              "xlsx": "1..3 sheets x {data, empty}, names not sorted", "ods": "1..3 sheets x {data, empty}, names not sorted",
+              "eml": "1..3 inline text parts over {plain, html}, multipart/mixed and /alternative",
+              "mbox": "1..3 messages x {body, empty, two lines}, padded / unpadded, LF / CRLF, header-only; 1..3 inline text parts per message",
+              "ppt": "record streams: 0..2 slides x {no text, 1, 2 text atoms} x {loose text atom}; 1..3 slides x 1..3 text atoms (token coverage); fixture slide_with_notes.ppt"}
+    for fmt in DOC_FORMATS:
+        r = res["results"].get(fmt)
+        oid = documents_oid(fmt)
+        if r and "error" in r:
+            und.append({"obligation": oid, "why": "native scope crashed: " + r["error"][-300:]})
+            continue
+        ok = not r
+        o = ground_obligation(oid, ok, "" if ok else f"{json.dumps(r.get('inputs'), default=repr)[:300]} -> {str(r.get('observed'))[:250]} (expected {str(r.get('expected'))[:160]})",
+                              "replay/C03.py", kind="bounded", backend="native-replay")
+        o["bounded"] = True
+        o["bound"] = bounds[fmt]
+        if excl.get(fmt):
+            o["exclusions"] = excl[fmt]
+        obls.append(o)
+    return {"obligations": obls, "undecided": und}
+
+
+def slide_text_fragments(repo, tier):
+    """Slide text of odp / pptx: the paragraph loops of odp_extractor._extract_slide and the placeholder classification of
+    pptx_extractor._process_slide_from_context are under C02's fragment contracts (every visible paragraph / shape text is stored
+    exactly once in title / body_text / other_text, i.e. in the text of ITS slide's unit).  C03 shares them (same real AST fragments,
+    same executor); the obligations are listed under C03 because a text that is stored nowhere is in no unit."""
+    from contracts import C02
+    r = C02.fragment_obligations(repo, tier)
+
+    def ren(x):
+        return ("C03/" + x[4:]) if isinstance(x, str) and x.startswith("C02/") else x
+    for o in r.get("obligations", []):
+        o["id"] = ren(o["id"])
+    for u in r.get("undecided", []):
+        u["obligation"] = ren(u.get("obligation"))
+    return r
+
+
 def known_findings(kf, violations, repo, tier):
     """Recorded genuine defects: every witness is replayed natively; one that still fails prints KNOWN-FINDING.  The
     findings exclude document FEATURES from the bounded section scope of their class (listed in the evidence); they
